@@ -21,11 +21,15 @@ for name in sorted(os.listdir(sd)):
         first = "no"
     rows.append(f"| {name} | {m.get('owning_check')} | {', '.join(m.get('files', []))[:60]} | {summ.replace('|', '/')} | {first} | {own if isinstance(own, str) else own} | {', '.join(others) or '-'} |")
 text = ["## 11. Seeded changes and which checks catch them", "",
-        "Changes produced by independent sub-agents (each given only the text of one property and a scratch worktree of /repo; nothing",
-        "from /verif). Every change kept here was confirmed by me with `tools/seedtest.py <dir> --verify`: the repository's tests pass with",
-        "it, its demo fails with it and passes without it. `first version` says whether the owning check as first built caught it;",
-        "`owning check now` is the verdict of the current check (full quick budget); `also caught by` comes from the cross matrix",
-        "`seeded/MATRIX.json` (every check against every change at 30 % of the quick budget, so a miss there is weaker evidence than a hit).", "",
+        "Changes produced by independent sub-agents. Round 1: each agent got only the text of one property and a scratch worktree of",
+        "/repo. From round 2 on the prompt also listed one-line summaries of the earlier changes for that property (so that they are not",
+        "repeated) and, from round 3 on, a prose description of what kind of workloads the harness drives (so that the new changes aim",
+        "at its blind spots); no file of /verif was ever shown (`origin` in each meta.json says what the author knew). Every change kept",
+        "here was confirmed by me with `tools/seedtest.py <dir> --verify` in a scratch worktree outside /repo and /verif: the repository's",
+        "tests pass with it, its demo fails with it and passes without it. `first version` says whether the owning check caught it when",
+        "it was first evaluated (else: what was widened); `owning check now` is the verdict of the owning check at its last evaluation",
+        "with the full quick budget (rounds 1-3: re-verification recorded in `seeded/RESULTS.json`; later rounds: right after the widening",
+        "that the change led to); `also caught by` comes from the partial cross matrix `seeded/MATRIX.json` of round 1.", "",
         "| change | property | files | what it does | first version caught it | owning check now | also caught by |",
         "|---|---|---|---|---|---|---|"] + rows + [""]
 notes = os.path.join(sd, "NOTES.md")
